@@ -101,6 +101,18 @@ type Case struct {
 	Drift   uint64      `json:"max_height_drift"`
 	Initial []HeightTxs `json:"initial"`
 	Steps   []Step      `json:"steps"`
+	// Base: every height of the case (start height, contents, growth, scripted errors) was shifted up by this much
+	// (the history plays at large DA heights; the window model is invariant under the shift).
+	Base uint64 `json:"heights_shifted_by,omitempty"`
+	// ContentIDs: the DA double derives blob ids from the content (height + sha256), like the repository's DummyDA:
+	// the same bytes at two positions of one height are listed under one id.
+	ContentIDs bool `json:"content_derived_ids,omitempty"`
+	// DrainLimit: the size requested in the final drain phase (0 = a little above the whole DA content).
+	DrainLimit uint64 `json:"drain_limit,omitempty"`
+	// Store: the history starts on a datastore left behind by the pinned tree (see golden.go), not on an empty one.
+	Store *GoldenStore `json:"store_written_by_pinned_tree,omitempty"`
+	// dumpTo (golden writer only): where to record the state reached after the last step.
+	dumpTo *GoldenStore
 }
 
 // TxAt is one transaction of the DA contents with its coordinates.
